@@ -131,6 +131,150 @@ Theorem C19_inherit_created_after_all_levels :
     /\ (forall a, In a (lineage (cr_lvl r)) -> has_row id (ctable (cr_post r) a) = true).
 Proof. exact (@chain_hist). Qed.
 
+(* ------------------------------------------------------------------ flush and discard points of a lazy instance *)
+(* syncUpdate(), sync() and pickle.dumps() flush what a lazyUpdate instance
+   holds back; expire() discards it.  (Vocabulary: is_flush_of o k id = o is
+   one of the three flushes of instance id of class k; flush_events g k id p =
+   [] for an empty queue p, else the one UPDATE holding p in column order,
+   then RowUpdatedSignal to every receiver in registration order, then the
+   callbacks they appended; queues_for o k id = o is an assignment / set() of
+   that instance; exec = the state after a history.) *)
+
+(* pickling is syncUpdate(): state, outcome and trace, in every state *)
+Theorem C19_pickle_is_syncUpdate :
+  forall g st k id, step g st (OPickle k id) = step g st (OSync k id).
+Proof. exact (@step_pickle). Qed.
+
+(* sync() that succeeds (the row still exists) is syncUpdate() *)
+Theorem C19_sync_is_syncUpdate :
+  forall g st k id, succeeded (snd (fst (step g st (OSyncFull k id)))) = true ->
+    step g st (OSyncFull k id) = step g st (OSync k id).
+Proof. exact (@step_syncfull_ok). Qed.
+
+(* every successful flush of every history: exactly the UPDATE of the queued
+   values followed by the after-event (each receiver once, in order, then the
+   callbacks) -- or nothing at all when nothing is queued; the row holds the
+   queued values; the queue is empty afterwards *)
+Theorem C19_flush_exactly_once_in_order :
+  forall g ops r k id, In r (run g init ops) -> is_flush_of (r_op r) k id = true -> succeeded (r_out r) = true ->
+    r_tr r = flush_events g k id (pend_of (r_pre r) k id)
+    /\ k_tbl (ks (r_post r) k) = tbl_update id (sort_cols (pend_of (r_pre r) k id)) (k_tbl (ks (r_pre r) k))
+    /\ pend_of (r_post r) k id = [].
+Proof. exact (@hist_flush). Qed.
+
+(* expire(): NO event, NO write -- both tables are what they were --, the
+   instance's queue is gone, the queues of all other instances are untouched,
+   and it never raises *)
+Theorem C19_expire_silent :
+  forall g ops r k id, In r (run g init ops) -> r_op r = OExpire k id ->
+    r_tr r = []
+    /\ (forall k', k_tbl (ks (r_post r) k') = k_tbl (ks (r_pre r) k'))
+    /\ pend_of (r_post r) k id = []
+    /\ (forall k' id', (k' <> k \/ id' <> id) -> pend_of (r_post r) k' id' = pend_of (r_pre r) k' id')
+    /\ (r_out r = Done \/ r_out r = NoHandle).
+Proof. exact (@hist_expire). Qed.
+
+(* what expire() dropped is never written: after any history, an expire(),
+   and any further operations that do not assign to the instance again, each
+   of its three flushes writes nothing and delivers nothing *)
+Theorem C19_expired_queue_never_written :
+  forall g ops k id mid o,
+    (forall o', In o' mid -> queues_for o' k id = false) -> is_flush_of o k id = true ->
+    snd (step g (exec g init (ops ++ OExpire k id :: mid)) o) = [].
+Proof. exact (@expired_queue_never_written). Qed.
+
+(* and the operations after an expire() still deliver theirs: every successful
+   step of a history that contains an expire() anywhere is the documented one *)
+Theorem C19_after_expire_in_order :
+  forall g ops1 k id ops2 r, In r (run g init (ops1 ++ OExpire k id :: ops2)) -> succeeded (r_out r) = true ->
+    r_tr r = spec_events g (r_pre r) (r_op r)
+    /\ k_tbl (ks (r_post r) (op_cls (r_op r))) = spec_table g (r_pre r) (r_op r).
+Proof. exact (@hist_after_expire). Qed.
+
+(* ------------------------------------------------------------------ updates of InheritableSQLObject instances *)
+(* chain_steps = histories of creations, attribute assignments and set() calls
+   on the instances of the chain A <- B <- C (A owns column a, B b, C c).
+   uspec = what the generated setters and InheritableSQLObject.set do, in
+   closed form: `inst.c = v` with c owned by class o sends RowUpdateSignal of
+   every class from the instance's down to o (each receiver of each class, in
+   registration order, with the dict {c: v}), then the UPDATE of o's table,
+   then RowUpdatedSignal + callbacks of class o ONLY; set() of an instance of
+   a child class sends NO RowUpdateSignal of its own, performs one such
+   assignment per inherited column in keyword order, then one UPDATE of its
+   own column (if given), then RowUpdatedSignal + callbacks of its class.
+   recv_of s a tr = the listeners that received signal s of class a, in
+   order; rounds n L = n rounds over the receivers L; uowed o a s = the number
+   of rounds: for an assignment, SUpdate: 1 for every class between the
+   instance's and the owner, SUpdated: 1 for the owner; for set(), the sum
+   over the inherited keys plus 1 x SUpdated for the instance's class (plus
+   1 x SUpdate for the root class, which has the plain set()). *)
+Theorem C19_chain_update_as_the_setters_do :
+  forall script ops r id,
+    In r (chain_steps (effective script) cinit ops) -> is_uupdate (ur_op r) = true -> ur_out r = CDone id ->
+    ur_tr r = uspec (effective script) (ur_op r)
+    /\ ur_post r = uspec_state (ur_op r) (ur_pre r)
+    /\ forall s a, recv_of lvl_eqb s a (ur_tr r) = rounds (uowed (ur_op r) a s) (sel s (ltab (effective script) a)).
+Proof. exact (@chain_steps_update). Qed.
+
+(* The property's sentence for updates, read for a chain instance: the
+   receivers of the instance's class get the before-event once and the
+   after-event once.  The model of the unchanged code falsifies it: *)
+Definition C19_chain_update_full : Prop :=
+  forall script ops r id s,
+    In r (chain_steps (effective script) cinit ops) -> is_uupdate (ur_op r) = true -> ur_out r = CDone id ->
+    (s = SUpdate \/ s = SUpdated) ->
+    recv_of lvl_eqb s (uop_lvl (ur_op r)) (ur_tr r) = map fst (sel s (ltab (effective script) (uop_lvl (ur_op r)))).
+(* set() of a child's own column: a receiver registered for RowUpdateSignal
+   on the instance's class hears nothing (s = SUpdate in the witness) *)
+Theorem C19_chain_update_refuted :
+  exists script ops r id s i x,
+    In r (chain_steps (effective script) cinit ops) /\ is_uupdate (ur_op r) = true /\ ur_out r = CDone id
+    /\ (s = SUpdate \/ s = SUpdated)
+    /\ In (i, (s, x)) (ltab (effective script) (uop_lvl (ur_op r)))
+    /\ recv_of lvl_eqb s (uop_lvl (ur_op r)) (ur_tr r) = [].
+Proof. exact (@chain_update_refuted). Qed.
+(* assignment of an inherited column: a receiver registered for
+   RowUpdatedSignal on the instance's class hears nothing *)
+Theorem C19_chain_update_refuted_after :
+  exists script ops r id i x,
+    In r (chain_steps (effective script) cinit ops) /\ is_uupdate (ur_op r) = true /\ ur_out r = CDone id
+    /\ In (i, (SUpdated, x)) (ltab (effective script) (uop_lvl (ur_op r)))
+    /\ recv_of lvl_eqb SUpdated (uop_lvl (ur_op r)) (ur_tr r) = [].
+Proof. exact (@chain_update_refuted_after). Qed.
+(* guard uplain = the update involves one class only (an assignment of a column
+   the instance's own class declares, or anything on the root class): then the
+   receivers of that class get the before-event exactly once and the
+   after-event exactly once, each in registration order, no other class hears
+   anything, no before-event follows the UPDATE and no UPDATE follows an
+   after-event *)
+Theorem C19_chain_update_partial :
+  forall script ops r id,
+    In r (chain_steps (effective script) cinit ops) -> uplain (ur_op r) = true -> ur_out r = CDone id ->
+    (forall s, s = SUpdate \/ s = SUpdated -> forall a,
+       recv_of lvl_eqb s a (ur_tr r)
+       = if lvl_eqb a (uop_lvl (ur_op r)) then map fst (sel s (ltab (effective script) a)) else [])
+    /\ (forall tr1 w tr2, ur_tr r = tr1 ++ EWrite w :: tr2 -> forall k i kw li, ~ In (ESig SUpdate k i kw li) tr2)
+    /\ (forall tr1 k i kw li tr2, ur_tr r = tr1 ++ ESig SUpdated k i kw li :: tr2 -> forall w, ~ In (EWrite w) tr2).
+Proof. exact (@chain_hist_plain_read). Qed.
+
+(* C19_inherit_created_after_all_levels over histories in which updates occur
+   between the creations ... *)
+Theorem C19_inherit_created_after_all_levels_mixed :
+  forall script ops r l kw id,
+    In r (chain_steps (effective script) cinit ops) -> ur_op r = UCreate l kw -> ur_out r = CDone id ->
+    (forall tr1 k i kw' li tr2, ur_tr r = tr1 ++ ESig SCreated k i kw' li :: tr2 ->
+       forall k' id' row, ~ In (EWrite (WInsert k' id' row)) tr2)
+    /\ inserts_of (ur_tr r) = map (fun a => (a, id)) (rev (lineage l))
+    /\ (forall a, In a (lineage l) -> has_row id (ctable (ur_post r) a) = true).
+Proof. exact (@chain_hist_created_read). Qed.
+(* ... and a history of creations only is the chain_run of the theorem above *)
+Theorem C19_chain_steps_of_creations :
+  forall script ops,
+    map (fun r => (uop_lvl (ur_op r), ur_out r, ur_tr r, ur_post r))
+        (chain_steps (effective script) cinit (map (fun p => UCreate (fst p) (snd p)) ops))
+    = map (fun r => (cr_lvl r, cr_out r, cr_tr r, cr_post r)) (chain_run (effective script) cinit ops).
+Proof. exact (@chain_steps_creates). Qed.
+
 (* ------------------------------------------------------------------ regressions of the defects fixed by 480ba65 *)
 (* a receiver adds column b to the dict of obj.a = 5: ONE UPDATE of both columns, ONE RowUpdatedSignal *)
 Example C19_fixed_added_key :
@@ -245,6 +389,59 @@ Example C19_example_expire_sync :
      (Exn XNotFound, [])].
 Proof. vm_compute. reflexivity. Qed.
 
+(* the three flush points and the discard point, with listeners: pickling
+   flushes like syncUpdate; after expire() the next flush is silent; the
+   assignment after it is queued and flushed by sync() *)
+Definition ex_fg : cfg := {| lis_e := []; lis_l := [(SUpdate, ALog); (SUpdated, APost 1); (SUpdated, ALog)] |}.
+Definition ex_fops : list op :=
+  [OCreate KLazy [(CA, VInt 2)]; OAssign KLazy 1 CA (VInt 9); OSet KLazy 1 [(CC, VInt 1); (CB, VStr [120%N])]; OPickle KLazy 1;
+   OPickle KLazy 1; OAssign KLazy 1 CA (VInt 3); OExpire KLazy 1; OGet KLazy 1 true; OPickle KLazy 1; OSync KLazy 1;
+   OAssign KLazy 1 CC (VInt 4); OSyncFull KLazy 1].
+Example C19_example_flush_points :
+  map (fun r => (r_out r, r_tr r)) (skipn 3 (run ex_fg init ex_fops))
+  = [(Done, [EWrite (WUpdate KLazy 1 [(CA, VInt 9); (CB, VStr [120%N]); (CC, VInt 1)]);
+             ESig SUpdated KLazy (Some 1) [] 1; ESig SUpdated KLazy (Some 1) [] 2; EPost SUpdated 1 KLazy 1]);
+     (Done, []);
+     (Done, [ESig SUpdate KLazy (Some 1) [(CA, VInt 3)] 0]);
+     (Done, []); (Ids [1], []); (Done, []); (Done, []);
+     (Done, [ESig SUpdate KLazy (Some 1) [(CC, VInt 4)] 0]);
+     (Done, [EWrite (WUpdate KLazy 1 [(CC, VInt 4)]);
+             ESig SUpdated KLazy (Some 1) [] 1; ESig SUpdated KLazy (Some 1) [] 2; EPost SUpdated 1 KLazy 1])]
+  /\ k_tbl (s_l (exec ex_fg init ex_fops)) = [(1, [(CA, VInt 9); (CB, VStr [120%N]); (CC, VInt 4)])].
+Proof. vm_compute. split; reflexivity. Qed.
+
+(* updates of a C instance: listener 0 (RowUpdateSignal) is registered on A
+   before B and C exist (so all three classes hold it), 1 (RowUpdatedSignal) on
+   A afterwards, 2 / 3 on C.  c.a = 5: the before-event runs down the chain,
+   the after-event is A's alone; c.set(b, c, a): two complete inherited
+   assignments in keyword order, then the UPDATE of c and C's after-event *)
+Definition ex_uscript : list reg :=
+  [RDef LA; RListen LA 0 (SUpdate, ALog); RDef LB; RDef LC; RListen LA 1 (SUpdated, APost 7);
+   RListen LC 2 (SUpdate, ALog); RListen LC 3 (SUpdated, ALog)].
+Definition ex_uops : list cop :=
+  [UCreate LC [(CA, VInt 1)]; UAssign LC 1 CA (VInt 5); USet LC 1 [(CB, VStr [120%N]); (CC, VInt 2); (CA, VInt 6)];
+   UAssign LC 1 CC (VInt 3); USet LC 1 [(CC, VStr [120%N]); (CA, VInt 0)]; UAssign LB 1 CA (VInt 0)].
+Example C19_example_chain_updates :
+  map (fun r => (ur_out r, ur_tr r)) (skipn 1 (chain_steps (effective ex_uscript) cinit ex_uops))
+  = [(CDone 1, [ESig SUpdate LC (Some 1) [(CA, VInt 5)] 0; ESig SUpdate LC (Some 1) [(CA, VInt 5)] 2;
+                ESig SUpdate LB (Some 1) [(CA, VInt 5)] 0; ESig SUpdate LA (Some 1) [(CA, VInt 5)] 0;
+                EWrite (WUpdate LA 1 [(CA, VInt 5)]); ESig SUpdated LA (Some 1) [] 1; EPost SUpdated 7 LA 1]);
+     (CDone 1, [ESig SUpdate LC (Some 1) [(CB, VStr [120%N])] 0; ESig SUpdate LC (Some 1) [(CB, VStr [120%N])] 2;
+                ESig SUpdate LB (Some 1) [(CB, VStr [120%N])] 0; EWrite (WUpdate LB 1 [(CB, VStr [120%N])]);
+                ESig SUpdate LC (Some 1) [(CA, VInt 6)] 0; ESig SUpdate LC (Some 1) [(CA, VInt 6)] 2;
+                ESig SUpdate LB (Some 1) [(CA, VInt 6)] 0; ESig SUpdate LA (Some 1) [(CA, VInt 6)] 0;
+                EWrite (WUpdate LA 1 [(CA, VInt 6)]); ESig SUpdated LA (Some 1) [] 1; EPost SUpdated 7 LA 1;
+                EWrite (WUpdate LC 1 [(CC, VInt 2)]); ESig SUpdated LC (Some 1) [] 3]);
+     (CDone 1, [ESig SUpdate LC (Some 1) [(CC, VInt 3)] 0; ESig SUpdate LC (Some 1) [(CC, VInt 3)] 2;
+                EWrite (WUpdate LC 1 [(CC, VInt 3)]); ESig SUpdated LC (Some 1) [] 3]);
+     (CExn XInvalid, []);
+     (CBadInput, [])]
+  /\ (ca (ur_post (last (chain_steps (effective ex_uscript) cinit ex_uops)
+                       {| ur_pre := cinit; ur_op := UCreate LA []; ur_out := CBadInput; ur_tr := []; ur_post := cinit |})),
+      uplain (UAssign LC 1 CC (VInt 3)), uplain (UAssign LC 1 CA (VInt 5)))
+     = ([(1, VInt 6, Some LB)], true, false).
+Proof. vm_compute. split; reflexivity. Qed.
+
 Print Assumptions C19_exactly_once_in_order.
 Print Assumptions C19_log_is_concat_of_spec.
 Print Assumptions C19_each_listener_once.
@@ -256,3 +453,15 @@ Print Assumptions C19_create_events_only_from_create.
 Print Assumptions C19_rewrites_stored.
 Print Assumptions C19_post_callbacks_after.
 Print Assumptions C19_inherit_created_after_all_levels.
+Print Assumptions C19_pickle_is_syncUpdate.
+Print Assumptions C19_sync_is_syncUpdate.
+Print Assumptions C19_flush_exactly_once_in_order.
+Print Assumptions C19_expire_silent.
+Print Assumptions C19_expired_queue_never_written.
+Print Assumptions C19_after_expire_in_order.
+Print Assumptions C19_chain_update_as_the_setters_do.
+Print Assumptions C19_chain_update_refuted.
+Print Assumptions C19_chain_update_refuted_after.
+Print Assumptions C19_chain_update_partial.
+Print Assumptions C19_inherit_created_after_all_levels_mixed.
+Print Assumptions C19_chain_steps_of_creations.
